@@ -222,4 +222,62 @@ theorem refValue_norm (be : Bool) (vr : VR) (v : PValue) (hv : ValidFor be vr v)
   · rw [norm_u8 h0 hvr]; rfl
   · rw [norm_num h0 hnum, refValue_numeric hnum, (paddedValue_numeric (be := be) hnum).1]
 
+/-! ### the normal form has the shape a reader delivers -/
+
+theorem split_component : ∀ (s : Bytes), Ascii s → (splitBackslash s).all Ref.component = true
+  | [], _ => by simp [splitBackslash, Ref.component]
+  | b :: r, h => by
+    have hr : Ascii r := fun x hx => h x (by simp [hx])
+    have hb : b < 128 := h b (by simp)
+    have ih := split_component r hr
+    simp only [splitBackslash]
+    split
+    · simp [Ref.component, ih]
+    · rename_i hne
+      cases hsp : splitBackslash r with
+      | nil => simp [Ref.component, hb, hne]
+      | cons x xs =>
+        rw [hsp] at ih
+        simp only [List.all_cons, Bool.and_eq_true] at ih ⊢
+        refine ⟨?_, ih.2⟩
+        simp only [Ref.component, List.all_cons, Bool.and_eq_true] at ih ⊢
+        exact ⟨by simp [hb, hne], ih.1⟩
+
+theorem valueFits_strs {vr : VR} (h : vr ∈ strsVrs) (l : List Bytes) :
+    Ref.valueFits vr (.strs l) = l.all Ref.component := by
+  simp only [strsVrs, List.mem_cons, List.mem_nil_iff, or_false] at h
+  rcases h with h | h | h | h | h | h | h | h | h | h | h | h | h <;> subst h <;> rfl
+
+theorem valueFits_str {vr : VR} (h : vr ∈ strVrs) (s : Bytes) :
+    Ref.valueFits vr (.str s) = Ref.plainText s := by
+  simp only [strVrs, List.mem_cons, List.mem_nil_iff, or_false] at h
+  rcases h with h | h | h | h <;> subst h <;> rfl
+
+theorem all_of_forall {α : Type} (p : α → Bool) (l : List α) (h : ∀ a ∈ l, p a = true) : l.all p = true :=
+  List.all_eq_true.mpr h
+
+theorem valueFits_numeric {vr : VR} {v : PValue} (h : NumericOk vr v) : Ref.valueFits vr (dropTxt v) = true := by
+  cases vr <;> cases v <;> simp [NumericOk] at h <;>
+    simp only [Ref.valueFits, dropTxt] <;> apply all_of_forall <;> intro a ha <;>
+    first
+      | (have := h a ha; simp; omega)
+      | (have := h a ha; simp [this])
+      | (obtain ⟨b, hb, rfl⟩ := List.mem_map.mp ha; have := h b hb; simp; omega)
+      | (obtain ⟨b, hb, rfl⟩ := List.mem_map.mp ha; have := h b.1 b.2 hb; simp; omega)
+
+theorem valueFits_norm (be : Bool) (vr : VR) (v : PValue) (hv : ValidFor be vr v)
+    (h0 : paddedValue be vr v ≠ []) : Ref.valueFits vr (normValue be vr v) = true := by
+  obtain ⟨hsq, _, _, hcls⟩ := hv
+  rcases hcls with h | ⟨hvr, hasc⟩ | ⟨hvr, hb⟩ | hnum
+  · exact absurd h h0
+  · by_cases hs : vr ∈ strsVrs
+    · rw [norm_strs h0 hs, valueFits_strs hs]; exact split_component _ hasc
+    · have hs2 : vr ∈ strVrs := by rcases hvr with h | h; exact absurd h hs; exact h
+      rw [norm_str h0 hs hs2, valueFits_str hs2]
+      exact all_of_forall _ _ (fun a ha => by simpa using hasc a ha)
+  · rw [norm_u8 h0 hvr]
+    rcases hvr with h | h <;> subst h <;>
+      exact all_of_forall _ _ (fun a ha => by simpa using hb a ha)
+  · rw [norm_num h0 hnum]; exact valueFits_numeric hnum
+
 end Dicom.Norm
